@@ -796,3 +796,115 @@ Proof.
   destruct (step default_fuel s o) as [[s1 x] tr]. cbn [fst] in H.
   specialize (IH s1). destruct (run s1 r) as [s2 rest]. cbn [fst] in *. congruence.
 Qed.
+
+(* ---- the changed set holds files and directories only ---- *)
+Definition is_entry (d : dep) : Prop := match d with DepAsset _ => False | _ => True end.
+Definition TRInv (s : st) : Prop := forall d, In d (to_reload s) -> is_entry d.
+
+Lemma dep_add_in d x l : In d (dep_add x l) -> d = x \/ In d l.
+Proof. unfold dep_add. destruct (dep_mem x l); [now right|]. intros H. apply in_app_or in H. destruct H as [H|[<-|[]]]; auto. Qed.
+
+Lemma fold_process_tr : forall l s, TRInv s -> TRInv (fold_left process_msg l s).
+Proof.
+  induction l as [|m r IH]; intros s I; cbn [fold_left]; [exact I|]. apply IH.
+  destruct m as [k deps|]; cbn; [exact I|intros d []].
+Qed.
+Lemma drain_tr s : TRInv s -> TRInv (drain s).
+Proof. intros I. unfold drain. intros d Hd. cbn [to_reload set_cm] in Hd. exact (fold_process_tr (cm s) s I d Hd). Qed.
+Lemma take_events_tr es : forall s, TRInv s -> TRInv (take_events s es).
+Proof.
+  unfold take_events. induction es as [|e r IH]; intros s I; cbn [fold_left]; [exact I|]. apply IH.
+  destruct (g_get (graph s) (dep_of_dentry e)); [|exact I].
+  intros d Hd. cbn [to_reload set_to_reload] in Hd. apply dep_add_in in Hd. destruct Hd as [->|Hd]; [destruct e; exact Logic.I|now apply I].
+Qed.
+Lemma reload_one_tr fuel s k : to_reload (fst (reload_one fuel s k)) = to_reload s.
+Proof.
+  unfold reload_one.
+  destruct (g_get (graph s) (DepAsset k)) as [n|]; [|reflexivity].
+  destruct (g_typ n) as [t|]; [|reflexivity].
+  destruct (cache_get s k) as [old|]; [|reflexivity].
+  destruct (en_dyn old); cbn [negb]; [|reflexivity].
+  pose proof (load_wrapped_quiet _ _ (proj1 (load_f_quiet fuel)) (proj2 (load_f_quiet fuel))
+                (rec_push s (Some [])) t (snd k)) as Q.
+  destruct (load_wrapped (load_entry_f fuel) (load_owned_f fuel) (rec_push s (Some [])) t (snd k)) as [[s1 tr] r].
+  cbn [fst] in Q. pose proof (quiet_push_pop s (Some []) s1 Q) as P.
+  destruct (rec_pop s1) as [s2 deps]. cbn [fst] in P. pose proof (q_tor _ _ P) as G.
+  destruct r as [[v tok]|e| |]; cbn [fst]; exact G.
+Qed.
+Lemma reload_all_tr fuel : forall order s tr, to_reload (fst (reload_all fuel s order tr)) = to_reload s.
+Proof.
+  induction order as [|k r IH]; intros s tr; cbn [reload_all]; [reflexivity|].
+  pose proof (reload_one_tr fuel s k) as H. destruct (reload_one fuel s k) as [s1 tr1]. cbn [fst] in H. now rewrite IH.
+Qed.
+Lemma run_pass_tr fuel s order : to_reload (fst (fst (run_pass fuel s order))) = [].
+Proof.
+  unfold run_pass. pose proof (reload_all_tr fuel order (set_to_reload s []) []) as R.
+  destruct (reload_all fuel (set_to_reload s []) order []) as [s1 tr]. exact R.
+Qed.
+
+Theorem step_keeps_the_changed_set_entries fuel s o : TRInv s -> TRInv (fst (fst (step fuel s o))).
+Proof.
+  intros I. assert (Same : forall s', to_reload s' = to_reload s -> TRInv s') by (intros s' E d Hd; rewrite E in Hd; now apply I).
+  assert (Nil : forall s', to_reload s' = [] -> TRInv s') by (intros s' E d Hd; rewrite E in Hd; destruct Hd).
+  destruct o; cbn [step].
+  - pose proof (q_tor _ _ (proj1 (load_f_quiet fuel) s t id)) as G.
+    destruct (load_entry_f fuel s t id) as [[s1 tr] r]. now apply Same.
+  - pose proof (q_tor _ _ (proj2 (load_f_quiet fuel) s t id)) as G.
+    destruct (load_owned_f fuel s t id) as [[s1 tr] r]. now apply Same.
+  - pose proof (q_tor _ _ (quiet_get_cached_rec s t id)) as G.
+    destruct (get_cached_rec s t id) as [s1 o]. now apply Same.
+  - pose proof (q_tor _ _ (quiet_get_cached_rec (fst (bump_tok s)) t id)) as G.
+    destruct (bump_tok s) as [s1 tok] eqn:B. cbn [fst] in G.
+    assert (G1 : to_reload s1 = to_reload s) by (unfold bump_tok in B; inversion B; reflexivity).
+    destruct (get_cached_rec s1 t id) as [s2 o]. cbn [fst] in G.
+    destruct o as [e|]; cbn [fst]; [apply Same; congruence|].
+    pose proof (q_tor _ _ (quiet_cache_insert s2 (t, id) (mark_goi (mk_entry s2 t (VInt z "insert") tok)))) as G3.
+    destruct (cache_insert s2 (t, id) (mark_goi (mk_entry s2 t (VInt z "insert") tok))) as [[s3 e'] d].
+    cbn [fst] in *. apply Same. congruence.
+  - exact I.
+  - destruct (cache_get s (t, id)); [now apply Same|exact I].
+  - destruct (cache_get s (t, id)); [now apply Same|exact I].
+  - destruct (has_reloader s); now apply Same.
+  - now apply Same. - now apply Same. - now apply Same. - now apply Same. - now apply Same. - now apply Same. - now apply Same.
+  - destruct (has_reloader s); [|exact I].
+    assert (I1 : TRInv (take_events (drain s) es)) by (apply take_events_tr, drain_tr, I).
+    destruct (static_mode (take_events (drain s) es)); [|exact I1].
+    pose proof (run_pass_tr fuel (take_events (drain s) es) order) as R.
+    destruct (run_pass fuel (take_events (drain s) es) order) as [[s2 ok] tr]. now apply Nil.
+  - destruct (has_reloader s); [|exact I].
+    destruct (static_mode s); [cbn [fst]; now apply drain_tr|].
+    pose proof (run_pass_tr fuel (drain s) order) as R.
+    destruct (run_pass fuel (drain s) order) as [[s2 ok] tr]. now apply Nil.
+  - destruct (has_reloader s && negb (static_mode s)); [|exact I].
+    pose proof (run_pass_tr fuel (set_static (drain s) true) order) as R.
+    destruct (run_pass fuel (set_static (drain s) true) order) as [[s2 ok] tr]. now apply Nil.
+  - exact I.
+  - destruct (cache_get s (t, id)) as [e|]; [|exact I]. destruct (en_dyn e); [now apply Same|exact I].
+  - destruct (cache_get s (t, id)); [now apply Same|exact I].
+  - destruct (assoc N.eqb w (watchers s)) as [[k last]|]; [|exact I]. destruct (cache_get s k); [now apply Same|exact I].
+Qed.
+
+Theorem changed_set_holds_entries_in_every_history reloader ops :
+  TRInv (fst (run (init_st reloader) ops)).
+Proof.
+  assert (G : forall ops s, TRInv s -> TRInv (fst (run s ops))).
+  { induction ops0 as [|o r IH]; intros s I; cbn [run]; [exact I|].
+    pose proof (step_keeps_the_changed_set_entries default_fuel s o I) as I1.
+    destruct (step default_fuel s o) as [[s1 x] tr]. cbn [fst] in I1.
+    specialize (IH s1 I1). destruct (run s1 r) as [s2 rest]. exact IH. }
+  apply G. intros d [].
+Qed.
+
+(* an asset whose latest successful load recorded nothing is in no pass: nothing it read can change *)
+Theorem nothing_recorded_never_reloaded reloader ops order k :
+  let s := drain (fst (run (init_st reloader) ops)) in
+  legal_order s order = true -> deps_of (graph s) (DepAsset k) = [] -> ~ In k order.
+Proof.
+  intros s L D Hk. destruct (hot_reload_is_precise reloader ops order k L Hk) as (r & Hr & T).
+  assert (X : forall a d, tdep (graph s) a d -> a = DepAsset k -> d = DepAsset k).
+  { intros a d H. induction H as [x|a m d H IH Hm]; intros E; [exact E|].
+    specialize (IH E). subst m. rewrite D in Hm. discriminate. }
+  pose proof (X _ _ T eq_refl) as E. subst r.
+  assert (I : TRInv s) by (apply drain_tr, changed_set_holds_entries_in_every_history).
+  exact (I _ Hr).
+Qed.
